@@ -292,10 +292,29 @@ def check_fill_into(res, args, n, horizon):
                     break
         except Exception as e:
             problems.append("deep copy raised " + type(e).__name__)
+    if not problems and n >= 2:
+        # the element to fill is an argument of every call: a value goes to the element given with it
+        try:
+            el3 = lena.flow.Slice(*args)
+            sinks = (_Collect(), _Collect())
+            for j, v in enumerate(xs):
+                try:
+                    el3.fill_into(sinks[j % 2], v)
+                except lena.core.LenaStopFill:
+                    break
+            for par in (0, 1):
+                want = [xs[j] for j in range(upto) if j in selected and j % 2 == par]
+                if not _same(sinks[par].got, want):
+                    problems.append("with alternating target elements, element %d got %r"
+                                    % (par, [v[0] for v in sinks[par].got]))
+                    break
+        except Exception as e:
+            problems.append("alternating target elements: raised " + type(e).__name__)
     if problems:
         s = slice(*args)
         res.violation(case, problems, {"filled": [v[0] for v in expected]},
                       {"law": "slice-fill-into", "step_gt_1": bool(s.step and s.step > 1),
+                       "alternating_targets": any("alternating" in p for p in problems),
                        "early_stop": any("LenaStopFill" in p for p in problems)})
     return case
 
